@@ -1,42 +1,71 @@
 #!/usr/bin/env python3
-"""Apply every seeded change in /verif/seeded (or a given dir) to /repo in turn, run all quick checks, undo it.
-Writes seeded/MATRIX.json: which checks report a new violation for which change."""
-import json, os, subprocess, sys
+"""For every seeded change in /verif/seeded (or a given dir): apply it to a scratch worktree of /repo's HEAD,
+run all quick checks against that tree (VERIF_REPO), undo it.  Several lanes run in parallel, each with its own
+worktree, cache and evidence directory under /tmp/mx (removed afterwards).  /repo itself is not touched.
+Writes seeded/MATRIX.json: which checks report a new violation for which change.
+usage: seed_matrix.py [root] [seed ids...]      (with ids: merge into the existing MATRIX.json)"""
+import glob, json, os, queue, shutil, subprocess, sys, threading
 VERIF = os.path.dirname(os.path.dirname(os.path.abspath(__file__)))
 root = os.path.abspath(sys.argv[1] if len(sys.argv) > 1 else os.path.join(VERIF, "seeded"))
-only = sys.argv[2:] 
+only = sys.argv[2:]
+LANES = int(os.environ.get("MATRIX_LANES", "6"))
 props = [c["property_id"] for c in json.load(open(os.path.join(VERIF, "MANIFEST.json")))["checks"]]
 out = json.load(open(os.path.join(root, "MATRIX.json"))) if (only and os.path.exists(os.path.join(root, "MATRIX.json"))) else {}
 def sh(*a, **k): return subprocess.run(a, stdout=subprocess.PIPE, stderr=subprocess.STDOUT, text=True, **k)
 assert sh("git", "-C", "/repo", "diff", "--quiet").returncode == 0, "/repo dirty"
-for sid in sorted(os.listdir(root)):
-    d = os.path.join(root, sid)
-    patch = os.path.join(d, "patch.diff")
-    if not os.path.isfile(patch) or (only and sid not in only):
-        continue
-    import glob
-    r = None
-    for pth in [patch] + sorted(glob.glob(os.path.join(d, "patch_rebased_*.diff")), reverse=True):
-        for extra in ([], ["-C1"]):
-            r = sh("git", "-C", "/repo", "apply", *extra, pth)
+BASE = "/tmp/mx"
+shutil.rmtree(BASE, ignore_errors=True)
+sh("git", "-C", "/repo", "worktree", "prune")
+seeds = [s for s in sorted(os.listdir(root)) if os.path.isfile(os.path.join(root, s, "patch.diff")) and (not only or s in only)]
+q = queue.Queue()
+for s in seeds:
+    q.put(s)
+lock = threading.Lock()
+
+def lane(i):
+    wt = "%s/wt%d" % (BASE, i)
+    r = sh("git", "-C", "/repo", "worktree", "add", "-q", "--detach", wt, "HEAD")
+    assert r.returncode == 0, r.stdout
+    env = dict(os.environ, VERIF_REPO=wt, VERIF_CACHE="%s/cache%d" % (BASE, i), VERIF_EVIDENCE_DIR="%s/ev%d" % (BASE, i))
+    while True:
+        try:
+            sid = q.get_nowait()
+        except queue.Empty:
+            break
+        d = os.path.join(root, sid)
+        r = None
+        for pth in [os.path.join(d, "patch.diff")] + sorted(glob.glob(os.path.join(d, "patch_rebased_*.diff")), key=os.path.getmtime, reverse=True):
+            for extra in ([], ["-C1"]):
+                r = sh("git", "-C", wt, "apply", *extra, pth)
+                if r.returncode == 0:
+                    break
             if r.returncode == 0:
                 break
-        if r.returncode == 0:
-            break
-    if r.returncode != 0:
-        out[sid] = {"error": "patch does not apply: " + r.stdout[-300:]}
-        print(sid, "PATCH DOES NOT APPLY"); continue
-    try:
-        hits = {}
-        for p in props:
-            rr = sh(os.path.join(VERIF, "check"), p, "quick", cwd=VERIF)
-            keys = [l.split(": [")[0].split(": ", 1)[-1] for l in rr.stdout.splitlines() if ": [" in l and not l.startswith("KNOWN-FINDING")]
-            if rr.returncode == 1:
-                hits[p] = keys
-            elif rr.returncode != 0:
-                hits[p] = ["CHECK-ERROR rc=%d: %s" % (rr.returncode, rr.stdout[-200:])]
-        out[sid] = {"detected_by": hits}
-        print(sid, "->", {k: len(v) for k, v in hits.items()} or "MISSED", flush=True)
-    finally:
-        sh("git", "-C", "/repo", "checkout", "--", ".")
-json.dump(out, open(os.path.join(root, "MATRIX.json"), "w"), indent=1)
+        if r.returncode != 0:
+            with lock:
+                out[sid] = {"error": "patch does not apply: " + r.stdout[-300:]}
+                print(sid, "PATCH DOES NOT APPLY", flush=True)
+            continue
+        try:
+            hits = {}
+            for p in props:
+                rr = sh(os.path.join(VERIF, "check"), p, "quick", cwd=VERIF, env=env)
+                keys = [l.split(": [")[0].split(": ", 1)[-1] for l in rr.stdout.splitlines() if ": [" in l and not l.startswith("KNOWN-FINDING")]
+                if rr.returncode == 1:
+                    hits[p] = keys
+                elif rr.returncode != 0:
+                    hits[p] = ["CHECK-ERROR rc=%d: %s" % (rr.returncode, rr.stdout[-200:])]
+            with lock:
+                out[sid] = {"detected_by": hits}
+                print(sid, "->", {k: len(v) for k, v in hits.items()} or "MISSED", flush=True)
+        finally:
+            sh("git", "-C", wt, "checkout", "--", ".")
+            sh("git", "-C", wt, "clean", "-fdq")
+    sh("git", "-C", "/repo", "worktree", "remove", "--force", wt)
+
+ts = [threading.Thread(target=lane, args=(i,)) for i in range(min(LANES, max(1, len(seeds))))]
+[t.start() for t in ts]
+[t.join() for t in ts]
+shutil.rmtree(BASE, ignore_errors=True)
+sh("git", "-C", "/repo", "worktree", "prune")
+json.dump(dict(sorted(out.items())), open(os.path.join(root, "MATRIX.json"), "w"), indent=1)
